@@ -55,6 +55,10 @@ pub enum Op {
     UpgradeAndMigrate,
     /// the ledger advances by this many days (custody, collector and dedup-free payouts do not depend on time)
     AdvanceDays(u8),
+    /// somebody tries to take the service's custody through the token contract itself - `who`: a stranger, the token's
+    /// owner / issuer, the token's minter, the gas collector, a spender; `how`: transfer_from / burn_from as spender
+    /// (the service never approved anyone), or transfer / burn naming the service as holder but signed by `who` alone
+    ThirdPartyPull { who: u8, token: u8, how: u8, all: bool },
 }
 
 #[derive(Clone, Debug, Serialize, Deserialize)]
@@ -83,6 +87,7 @@ fn op() -> impl Strategy<Value = Op> {
         1 => Just(Op::TransferOwnership),
         1 => Just(Op::UpgradeAndMigrate),
         1 => (1u8..90).prop_map(Op::AdvanceDays),
+        2 => (0u8..5, 0u8..3, 0u8..4, any::<bool>()).prop_map(|(who, token, how, all)| Op::ThirdPartyPull { who, token, how, all }),
     ]
 }
 
@@ -105,7 +110,7 @@ impl Property for C14 {
         "C14"
     }
     fn rule(&self) -> &'static str {
-        "proptest histories (<=30 quick / <=60 thorough ops) over 4 tokens (two Stellar asset contracts, one current-source InterchainToken, and a harness token that checks neither sign nor balance, so that the service's own amount checks are what is tested), 3 spenders, 6 receivers (three accounts, the gas service itself, the gas collector, the contract owner): pay_gas, add_gas, collect_fees, refund with amounts 0, -1, 1, small, exact balance, balance+1, i128::MAX (relative to the spender's balance for payments and to the service's balance for payouts), payouts authorised by the collector, by a stranger, by the (current) contract owner, or by nobody; deployments with distinct owner and collector or with one address holding both roles, and ownership transfers in the history (the collector role must stay where it was). Oracle: per-token running balance = paid + added - collected - refunded, compared with token.balance(service) and all spender/receiver balances after every step; payments need amount > 0 and move exactly that; payouts need the collector and never exceed the balance; one gas service event per movement carrying the same token and amount; refused calls leave the ledger snapshot identical. non-trivial = history touches >= 2 tokens and contains a successful payout; distinct by Debug hash. One case in four is an entry-point sweep (the exported functions of all shipped contracts read from the sources of the tree under test; entry points absent from the pinned inventory get 300 deterministic cases each and half of the random ones): one entry point is called on a fully deployed system whose gas service holds three tokens, arguments from pools of principals / contracts / tokens / boundary amounts, every require_auth satisfied by the host's mock and recorded; oracle: if the gas service's balance of any token decreased, the stored gas collector is among the recorded signers or is the called contract (cases where the mock let a contract sign are discarded); non-trivial = the call succeeded"
+        "proptest histories (<=30 quick / <=60 thorough ops) over 4 tokens (two Stellar asset contracts, one current-source InterchainToken, and a harness token that checks neither sign nor balance, so that the service's own amount checks are what is tested), 3 spenders, 6 receivers (three accounts, the gas service itself, the gas collector, the contract owner): pay_gas, add_gas, collect_fees, refund with amounts 0, -1, 1, small, exact balance, balance+1, i128::MAX (relative to the spender's balance for payments and to the service's balance for payouts), payouts authorised by the collector, by a stranger, by the (current) contract owner, or by nobody; attempts to take the service's custody through the token contracts themselves (transfer_from / burn_from as spender without any approval by the service, transfer / burn naming the service but signed by the attacker alone; attacker = stranger, token owner / issuer, token minter, collector, spender), which must all fail; deployments with distinct owner and collector or with one address holding both roles, and ownership transfers in the history (the collector role must stay where it was). Oracle: per-token running balance = paid + added - collected - refunded, compared with token.balance(service) and all spender/receiver balances after every step; payments need amount > 0 and move exactly that; payouts need the collector and never exceed the balance; one gas service event per movement carrying the same token and amount; refused calls leave the ledger snapshot identical. non-trivial = history touches >= 2 tokens and contains a successful payout; distinct by Debug hash. One case in four is an entry-point sweep (the exported functions of all shipped contracts read from the sources of the tree under test; entry points absent from the pinned inventory get 300 deterministic cases each and half of the random ones): one entry point is called on a fully deployed system whose gas service holds three tokens, arguments from pools of principals / contracts / tokens / boundary amounts, every require_auth satisfied by the host's mock and recorded; oracle: if the gas service's balance of any token decreased, the stored gas collector is among the recorded signers or is the called contract (cases where the mock let a contract sign are discarded); non-trivial = the call succeeded"
     }
     fn assumptions(&self) -> Vec<&'static str> {
         vec![
@@ -151,7 +156,8 @@ impl Property for C14 {
             tokens.push(a);
         }
         let towner = Address::generate(&env);
-        let it = register_native_token(&env, &towner, None, h32("c14", 0), "Gas", "GAS", 7);
+        let tminter = Address::generate(&env);
+        let it = register_native_token(&env, &towner, Some(tminter.clone()), h32("c14", 0), "Gas", "GAS", 7);
         for s in &spenders {
             it.mint(s, &START);
         }
@@ -192,9 +198,59 @@ impl Property for C14 {
                 cx.label("upgrade_and_migration_in_history");
                 continue;
             }
+            if let Op::ThirdPartyPull { who, token, how, all } = op {
+                // (not the unchecked harness token: it lets anybody move anything)
+                let ti = *token as usize % 3;
+                let t = TokenClient::new(&env, &tokens[ti]);
+                let w: Address = match who % 5 {
+                    0 => stranger.clone(),
+                    1 => {
+                        if ti == 2 {
+                            towner.clone()
+                        } else {
+                            StellarAssetClient::new(&env, &tokens[ti]).admin()
+                        }
+                    }
+                    2 => tminter.clone(),
+                    3 => gas.collector.clone(),
+                    _ => spenders[0].clone(),
+                };
+                let amount = if *all { held[ti].max(1) } else { 1 };
+                let args: soroban_sdk::Vec<soroban_sdk::Val> = match how % 4 {
+                    0 => (w.clone(), gas.id.clone(), w.clone(), amount).into_val(&env),
+                    1 => (w.clone(), gas.id.clone(), amount).into_val(&env),
+                    2 => (gas.id.clone(), w.clone(), amount).into_val(&env),
+                    _ => (gas.id.clone(), amount).into_val(&env),
+                };
+                let f = ["transfer_from", "burn_from", "transfer", "burn"][*how as usize % 4];
+                // `who` signs this very call; nobody else signs anything
+                let inv = MockAuthInvoke { contract: &tokens[ti], fn_name: f, args: args.clone(), sub_invokes: &[] };
+                if is_account_kind(&w) {
+                    continue;
+                }
+                env.mock_auths(&[MockAuth { address: &w, invoke: &inv }]);
+                let snap0 = snapshot(&env);
+                let r = env.try_invoke_contract::<soroban_sdk::Val, soroban_sdk::Error>(&tokens[ti], &soroban_sdk::Symbol::new(&env, f), args);
+                let _ = t;
+                cx.count("must_fail");
+                if held[ti] > 0 {
+                    cx.label(&format!("third_party_{}_on_custody_by_{}", f, ["stranger", "token_owner", "token_minter", "collector", "spender"][*who as usize % 5]));
+                }
+                ensure_p!(
+                    !matches!(r, Ok(Ok(_))),
+                    "step {}: {} took {} of token {} out of the gas service through the token's {} although the service authorised nothing and approved nobody",
+                    step,
+                    ["a stranger", "the token's owner", "the token's minter", "the collector (not through the service)", "a spender"][*who as usize % 5],
+                    amount,
+                    ti,
+                    f
+                );
+                ensure_p!(snapshot(&env) == snap0, "step {}: refused {} on the service's custody changed the ledger", step, f);
+                continue;
+            }
             let ti = match op {
                 Op::Pay { token, .. } | Op::Add { token, .. } | Op::Collect { token, .. } | Op::Refund { token, .. } => *token as usize % NT,
-                Op::TransferOwnership | Op::UpgradeAndMigrate | Op::AdvanceDays(_) => unreachable!(),
+                Op::TransferOwnership | Op::UpgradeAndMigrate | Op::AdvanceDays(_) | Op::ThirdPartyPull { .. } => unreachable!(),
             };
             let taddr = tokens[ti].clone();
             touched[ti] = true;
@@ -217,7 +273,7 @@ impl Property for C14 {
             match (op, by) {
                 (Op::Pay { .. } | Op::Add { .. }, _) | (_, By::Collector) => env.mock_all_auths(),
                 (_, By::Nobody) => env.mock_auths(&[]),
-                (Op::TransferOwnership, _) | (Op::UpgradeAndMigrate, _) | (Op::AdvanceDays(_), _) => unreachable!(),
+                (Op::TransferOwnership, _) | (Op::UpgradeAndMigrate, _) | (Op::AdvanceDays(_), _) | (Op::ThirdPartyPull { .. }, _) => unreachable!(),
                 (Op::Collect { receiver, amount, .. }, b) => {
                     let a = resolve(if ti == SLOPPY && *amount == Amt::Max { Amt::BalPlus1 } else { *amount }, held[ti]);
                     let who = if b == By::Stranger { &stranger } else { &owner_now };
@@ -301,7 +357,7 @@ impl Property for C14 {
                         payout = true;
                     }
                 }
-                Op::TransferOwnership | Op::UpgradeAndMigrate | Op::AdvanceDays(_) => unreachable!(),
+                Op::TransferOwnership | Op::UpgradeAndMigrate | Op::AdvanceDays(_) | Op::ThirdPartyPull { .. } => unreachable!(),
                 Op::Refund { by, receiver, amount: a, .. } => {
                     let ri = *receiver as usize % NR;
                     amount = resolve(if ti == SLOPPY && *a == Amt::Max { Amt::BalPlus1 } else { *a }, held[ti]);
